@@ -13,10 +13,11 @@ def main(ctx, args):
     return vidrive.vi_check(ctx, "C07", "mot", n, steps,
         "scripts = seeded key sequences built from the model state over texts with ASCII words, punctuation, blanks, tabs, brackets, "
         "multi-byte, wide and combining characters and empty lines (autoindent on in one half, off in the other); one evaluation = "
-        "one command compared; non-trivial = a command of this property after which cursor or text differ from before",
+        "one command compared (plus, exhaustively, every command of a fixed list from every cursor position of small buffers: profile exh); non-trivial = a command of this property after which cursor or text differ from before",
         ["the window is 23 rows x 80 columns and every buffer fits, so H M L depend on the buffer only",
          "marks after undo, numbered registers after a yank and the cursor after a multi-line character-wise put follow the code",
-         "filters, tags, keymaps and digraphs are not generated"])
+         "filters, tags, keymaps and digraphs are not generated"],
+        exh=("mot", [28, 4] if ctx.quick else [28, 27, 29], not ctx.quick))
 
 
 if __name__ == "__main__":
